@@ -288,6 +288,988 @@ Proof. exact newton_sqrt_witness. Qed.
 
 Print Assumptions newton_affine_exact.
 Print Assumptions newton_sqrt.
+(* ======================================================================================
+   C17, round two (package newton2) -- to be appended at the END of Props/C17.v.
+
+   What is added to the success half of C17 ("inside its basin of quadratic convergence the
+   solver returns Ok at a distance of the order of the tolerance from the root"):
+
+   A. affine systems, the `_partial` premise discharged (C01: solve_basic_sound + solve_basic_complete
+      + solutions_unique): newton_sys_affine / newton_sysjac_affine -- no panic, Ok of THE root
+      within two passes, over any FieldLaws + PivLaws arithmetic; corollaries at Qc, R and C.
+   B. general differentiable f over R (on [a,b]: f' exists, 0 < m <= |f'| <= Mb, f' L-Lipschitz),
+      the code's finite-difference scalar solve (newton_scalar at NRl):
+        newton_ok_near_root_general   "Ok => distance of the order of tol" : covers the SECOND half
+                                      of the sentence (given the last pass lay in [a,b]);
+        newton_basin_no_panic / _contraction / _ok / _pass_count
+                                      "inside the basin => Ok": covers the FIRST half, the basin being
+                                      |x0 - r| <= rho with (L/m)(rho + |delta|) < 1.
+   C. the supplied-derivative variant on a 1 x 1 system (newton_sysjac at NRl, exact f'):
+        newton_quadratic_step         one-step inequality |x' - r| <= (L/m) |x - r|^2;
+        newton_monotone_*             convex increasing f from the right of the root: no panic,
+                                      monotone iterates, Ok within an explicit number of passes,
+                                      0 <= x - r <= tol / f'(r)  (both halves, global basin).
+   D. further variants and the sharpness of the hypotheses:
+        newton_sqrt_converges         x^2 - c from ANY x0 > 0: Ok as soon as (max_iter - 1) tol > (x0 + c/x0)/2 - sqrt c
+                                      (completes newton_sqrt: first half of the sentence, basin = half line);
+        central_difference_truncation / scalar_derivative_truncation
+                                      the slope of the scalar pass is within (delta^2/6) sup|f^(3)| of f'(y);
+        newton_scalar_affine_exact / newton_affine_exact_C
+                                      the scalar solve on a z + b over any field, and Newton<Cmplx>::solve;
+        newton_sys1d_ok_near_root / newton_sys1d_basin_no_panic / newton_sys1d_basin_ok
+                                      the finite-difference SYSTEM solve (func, norm_inf, Mat64::jacobian,
+                                      solve_basic, vector update) on a nonlinear 1 x 1 system, both halves;
+        newton_sys_affine_one_pass    2 <= max_iter is sharp: one pass already yields the exact root but reports
+                                      it as Err unless the guess had a small residual;
+        newton_sys_empty_panics / newton_sysjac_empty_panics
+                                      1 <= rows M is sharp: a 0-dimensional system panics (norm_inf reads vec[0]).
+   E. nonlinear systems of ANY dimension in the decoupled case F(x)_i = f_i(x_i) with the exact diagonal Jacobian
+      (solve_jacobian over R): sysjac_decoupled_pass, newton_decoupled_no_panic / _ok_close / _ok -- both halves,
+      sup-norm basin, quadratic contraction; the dim x dim elimination of each pass is discharged by C01;
+      and the same for the finite-difference variant (solve): newton_fd_decoupled_no_panic / _ok_close / _ok.
+   Still not proved: float rounding (tie); basins for COUPLED nonlinear systems of dimension > 1; nonlinear complex functions.
+   ====================================================================================== *)
+From Coq Require Import Lia.
+From OV Require Import Proofs.SolveBase Proofs.Solve Proofs.SolveQc Proofs.Newton2Sys Proofs.Newton2Real
+  Proofs.Newton2Scalar Proofs.Newton2Mono Proofs.Newton2Sqrt Proofs.Newton2Sys1d Proofs.Newton2Diag Proofs.Newton2Wit.
+From OV Require Proofs.SolveC Proofs.Newton2Inst Proofs.Newton2Cplx Proofs.Newton2Cdq Proofs.Newton2DiagFD.
+Local Close Scope R_scope.
+Local Open Scope nat_scope.
+
+(* ---------------- A. affine systems: no panic, Ok of the unique root within two passes ---------------- *)
+Theorem newton_sys_affine : forall (O : NOps), FieldLaws (NA O) -> PivLaws (NA O) ->
+  forall (M : matrix (NA O)) (c0 : list (NA O)) (tl dl : NR O),
+  wf M -> rows M = cols M -> 1 <= rows M -> emb O dl <> zero ->
+  ltb (mag O zero) (mag O zero) = false -> leb (mag O zero) tl = true ->
+  (exists N : nat -> nat -> NA O, left_inverse (rows M) N (ent M)) ->
+  forall n x0, length x0 = cols M -> 2 <= n ->
+  exists x evs, newton_sys O (mkCfg tl dl n x0) (fun p => Ok (aff O M c0 p)) = Ok (NOk x, evs) /\
+    length x = cols M /\ is_root O M c0 x /\
+    (forall y, length y = cols M -> is_root O M c0 y -> y = x) /\
+    length evs <= 2 * (cols M + 2).
+Proof. exact newton_sys_affine_full. Qed.
+Check newton_sys_affine : forall (O : NOps), FieldLaws (NA O) -> PivLaws (NA O) ->
+  forall (M : matrix (NA O)) (c0 : list (NA O)) (tl dl : NR O),
+  wf M -> rows M = cols M -> 1 <= rows M -> emb O dl <> zero ->
+  ltb (mag O zero) (mag O zero) = false -> leb (mag O zero) tl = true ->
+  (exists N : nat -> nat -> NA O, left_inverse (rows M) N (ent M)) ->
+  forall n x0, length x0 = cols M -> 2 <= n ->
+  exists x evs, newton_sys O (mkCfg tl dl n x0) (fun p => Ok (aff O M c0 p)) = Ok (NOk x, evs) /\
+    length x = cols M /\ is_root O M c0 x /\
+    (forall y, length y = cols M -> is_root O M c0 y -> y = x) /\
+    length evs <= 2 * (cols M + 2).
+Print Assumptions newton_sys_affine.
+
+Theorem newton_sysjac_affine : forall (O : NOps), FieldLaws (NA O) -> PivLaws (NA O) ->
+  forall (M : matrix (NA O)) (c0 : list (NA O)) (tl dl : NR O),
+  wf M -> rows M = cols M -> 1 <= rows M ->
+  ltb (mag O zero) (mag O zero) = false -> leb (mag O zero) tl = true ->
+  (exists N : nat -> nat -> NA O, left_inverse (rows M) N (ent M)) ->
+  forall n x0, length x0 = cols M -> 2 <= n ->
+  exists x evs, newton_sysjac O (mkCfg tl dl n x0) (fun p => Ok (aff O M c0 p)) (fun _ => Ok M) = Ok (NOk x, evs) /\
+    length x = cols M /\ is_root O M c0 x /\
+    (forall y, length y = cols M -> is_root O M c0 y -> y = x) /\
+    length evs <= 4.
+Proof. exact newton_sysjac_affine_full. Qed.
+Check newton_sysjac_affine : forall (O : NOps), FieldLaws (NA O) -> PivLaws (NA O) ->
+  forall (M : matrix (NA O)) (c0 : list (NA O)) (tl dl : NR O),
+  wf M -> rows M = cols M -> 1 <= rows M ->
+  ltb (mag O zero) (mag O zero) = false -> leb (mag O zero) tl = true ->
+  (exists N : nat -> nat -> NA O, left_inverse (rows M) N (ent M)) ->
+  forall n x0, length x0 = cols M -> 2 <= n ->
+  exists x evs, newton_sysjac O (mkCfg tl dl n x0) (fun p => Ok (aff O M c0 p)) (fun _ => Ok M) = Ok (NOk x, evs) /\
+    length x = cols M /\ is_root O M c0 x /\
+    (forall y, length y = cols M -> is_root O M c0 y -> y = x) /\
+    length evs <= 4.
+Print Assumptions newton_sysjac_affine.
+
+(* the hypotheses hold at Qc for [[2,1],[1,3]] (inverse [[3/5,-1/5],[-1/5,2/5]]), delta = 1/8, tol = 1/1000;
+   newton_sys_affine_nonvacuous above is the run of the model on that system *)
+Example newton_sys_affine_hyps_nonvacuous :
+  PivLaws AQ /\ wf M2q /\ rows M2q = cols M2q /\ 1 <= rows M2q /\ emb (NReal AQ) (q 1 8) <> zero /\
+  ltb (mag (NReal AQ) zero) (mag (NReal AQ) zero) = false /\ leb (mag (NReal AQ) zero) (q 1 1000) = true /\
+  (exists N : nat -> nat -> AQ, left_inverse (rows M2q) N (ent M2q)) /\ length [q 0 1; q 0 1] = cols M2q.
+Proof.
+  split; [exact AQ_PivLaws|]. split; [reflexivity|]. split; [reflexivity|]. split; [cbn; lia|].
+  split; [exact q18_nonzero|]. split; [reflexivity|]. split; [reflexivity|].
+  split; [exists (ent N2q); exact M2q_left_inverse|reflexivity].
+Qed.
+
+(* at Qc, the arithmetic of the exact tier of the correspondence check *)
+Theorem newton_sys_affine_Qc : forall (M : matrix AQ) (c0 : list AQ) (tl dl : Qc) n x0,
+  wf M -> rows M = cols M -> 1 <= rows M -> dl <> 0%Qc -> (0 <= tl)%Qc ->
+  (exists N : nat -> nat -> AQ, left_inverse (rows M) N (ent M)) ->
+  length x0 = cols M -> 2 <= n ->
+  exists x evs, newton_sys (NReal AQ) (mkCfg tl dl n x0) (fun p => Ok (aff (NReal AQ) M c0 p)) = Ok (NOk x, evs) /\
+    length x = cols M /\ is_root (NReal AQ) M c0 x /\
+    (forall y, length y = cols M -> is_root (NReal AQ) M c0 y -> y = x) /\
+    length evs <= 2 * (cols M + 2).
+Proof. exact Newton2Inst.newton_sys_affine_Qc_lemma. Qed.
+Check newton_sys_affine_Qc : forall (M : matrix AQ) (c0 : list AQ) (tl dl : Qc) n x0,
+  wf M -> rows M = cols M -> 1 <= rows M -> dl <> 0%Qc -> (0 <= tl)%Qc ->
+  (exists N : nat -> nat -> AQ, left_inverse (rows M) N (ent M)) ->
+  length x0 = cols M -> 2 <= n ->
+  exists x evs, newton_sys (NReal AQ) (mkCfg tl dl n x0) (fun p => Ok (aff (NReal AQ) M c0 p)) = Ok (NOk x, evs) /\
+    length x = cols M /\ is_root (NReal AQ) M c0 x /\
+    (forall y, length y = cols M -> is_root (NReal AQ) M c0 y -> y = x) /\
+    length evs <= 2 * (cols M + 2).
+Print Assumptions newton_sys_affine_Qc.
+
+Theorem newton_sysjac_affine_Qc : forall (M : matrix AQ) (c0 : list AQ) (tl dl : Qc) n x0,
+  wf M -> rows M = cols M -> 1 <= rows M -> (0 <= tl)%Qc ->
+  (exists N : nat -> nat -> AQ, left_inverse (rows M) N (ent M)) ->
+  length x0 = cols M -> 2 <= n ->
+  exists x evs, newton_sysjac (NReal AQ) (mkCfg tl dl n x0) (fun p => Ok (aff (NReal AQ) M c0 p)) (fun _ => Ok M) = Ok (NOk x, evs) /\
+    length x = cols M /\ is_root (NReal AQ) M c0 x /\
+    (forall y, length y = cols M -> is_root (NReal AQ) M c0 y -> y = x) /\
+    length evs <= 4.
+Proof. exact Newton2Inst.newton_sysjac_affine_Qc_lemma. Qed.
+Check newton_sysjac_affine_Qc : forall (M : matrix AQ) (c0 : list AQ) (tl dl : Qc) n x0,
+  wf M -> rows M = cols M -> 1 <= rows M -> (0 <= tl)%Qc ->
+  (exists N : nat -> nat -> AQ, left_inverse (rows M) N (ent M)) ->
+  length x0 = cols M -> 2 <= n ->
+  exists x evs, newton_sysjac (NReal AQ) (mkCfg tl dl n x0) (fun p => Ok (aff (NReal AQ) M c0 p)) (fun _ => Ok M) = Ok (NOk x, evs) /\
+    length x = cols M /\ is_root (NReal AQ) M c0 x /\
+    (forall y, length y = cols M -> is_root (NReal AQ) M c0 y -> y = x) /\
+    length evs <= 4.
+Print Assumptions newton_sysjac_affine_Qc.
+
+Example newton_sys_affine_Qc_nonvacuous :
+  wf M2q /\ rows M2q = cols M2q /\ 1 <= rows M2q /\ q 1 8 <> 0%Qc /\ (0 <= q 1 1000)%Qc /\
+  (exists N : nat -> nat -> AQ, left_inverse (rows M2q) N (ent M2q)) /\ length [q 0 1; q 0 1] = cols M2q.
+Proof.
+  split; [reflexivity|]. split; [reflexivity|]. split; [cbn; lia|]. split; [exact q18_nonzero|].
+  split; [discriminate|]. split; [exists (ent N2q); exact M2q_left_inverse|reflexivity].
+Qed.
+
+(* over the reals (NRl, the idealisation of Newton<Vec64>) *)
+Theorem newton_sys_affine_R : forall (M : matrix AR) (c0 : list AR) (tl dl : R) n x0,
+  wf M -> rows M = cols M -> 1 <= rows M -> dl <> 0%R -> (0 <= tl)%R ->
+  (exists N : nat -> nat -> AR, left_inverse (rows M) N (ent M)) ->
+  length x0 = cols M -> 2 <= n ->
+  exists x evs, newton_sys NRl (mkCfg tl dl n x0) (fun p => Ok (aff NRl M c0 p)) = Ok (NOk x, evs) /\
+    length x = cols M /\ is_root NRl M c0 x /\
+    (forall y, length y = cols M -> is_root NRl M c0 y -> y = x) /\
+    length evs <= 2 * (cols M + 2).
+Proof. exact newton_sys_affine_R_lemma. Qed.
+Check newton_sys_affine_R : forall (M : matrix AR) (c0 : list AR) (tl dl : R) n x0,
+  wf M -> rows M = cols M -> 1 <= rows M -> dl <> 0%R -> (0 <= tl)%R ->
+  (exists N : nat -> nat -> AR, left_inverse (rows M) N (ent M)) ->
+  length x0 = cols M -> 2 <= n ->
+  exists x evs, newton_sys NRl (mkCfg tl dl n x0) (fun p => Ok (aff NRl M c0 p)) = Ok (NOk x, evs) /\
+    length x = cols M /\ is_root NRl M c0 x /\
+    (forall y, length y = cols M -> is_root NRl M c0 y -> y = x) /\
+    length evs <= 2 * (cols M + 2).
+Print Assumptions newton_sys_affine_R.
+
+Theorem newton_sysjac_affine_R : forall (M : matrix AR) (c0 : list AR) (tl dl : R) n x0,
+  wf M -> rows M = cols M -> 1 <= rows M -> (0 <= tl)%R ->
+  (exists N : nat -> nat -> AR, left_inverse (rows M) N (ent M)) ->
+  length x0 = cols M -> 2 <= n ->
+  exists x evs, newton_sysjac NRl (mkCfg tl dl n x0) (fun p => Ok (aff NRl M c0 p)) (fun _ => Ok M) = Ok (NOk x, evs) /\
+    length x = cols M /\ is_root NRl M c0 x /\
+    (forall y, length y = cols M -> is_root NRl M c0 y -> y = x) /\
+    length evs <= 4.
+Proof. exact newton_sysjac_affine_R_lemma. Qed.
+Check newton_sysjac_affine_R : forall (M : matrix AR) (c0 : list AR) (tl dl : R) n x0,
+  wf M -> rows M = cols M -> 1 <= rows M -> (0 <= tl)%R ->
+  (exists N : nat -> nat -> AR, left_inverse (rows M) N (ent M)) ->
+  length x0 = cols M -> 2 <= n ->
+  exists x evs, newton_sysjac NRl (mkCfg tl dl n x0) (fun p => Ok (aff NRl M c0 p)) (fun _ => Ok M) = Ok (NOk x, evs) /\
+    length x = cols M /\ is_root NRl M c0 x /\
+    (forall y, length y = cols M -> is_root NRl M c0 y -> y = x) /\
+    length evs <= 4.
+Print Assumptions newton_sysjac_affine_R.
+
+Example newton_sys_affine_R_nonvacuous :
+  wf M2r /\ rows M2r = cols M2r /\ 1 <= rows M2r /\
+  (exists N : nat -> nat -> AR, left_inverse (rows M2r) N (ent M2r)) /\ length [0%R; 0%R] = cols M2r.
+Proof.
+  split; [reflexivity|]. split; [reflexivity|]. split; [cbn; lia|].
+  split; [exists (ent N2r); exact M2r_left_inverse|reflexivity].
+Qed.
+
+(* over C = R[i] through NCplx (Newton2Inst.NCR = NCplx SolveC.SAR: tol and delta real, |z| = sqrt(re^2 + im^2),
+   delta enters as (delta, 0)): the idealisation of Newton<Vector<Cmplx>> *)
+Theorem newton_sys_affine_C : forall (M : matrix SolveC.ACR) (c0 : list SolveC.ACR) (tl dl : R) n x0,
+  wf M -> rows M = cols M -> 1 <= rows M -> dl <> 0%R -> (0 <= tl)%R ->
+  (exists N : nat -> nat -> SolveC.ACR, left_inverse (rows M) N (ent M)) ->
+  length x0 = cols M -> 2 <= n ->
+  exists x evs, newton_sys Newton2Inst.NCR (mkCfg tl dl n x0) (fun p => Ok (aff Newton2Inst.NCR M c0 p)) = Ok (NOk x, evs) /\
+    length x = cols M /\ is_root Newton2Inst.NCR M c0 x /\
+    (forall y, length y = cols M -> is_root Newton2Inst.NCR M c0 y -> y = x) /\
+    length evs <= 2 * (cols M + 2).
+Proof. exact Newton2Inst.newton_sys_affine_C_lemma. Qed.
+Check newton_sys_affine_C : forall (M : matrix SolveC.ACR) (c0 : list SolveC.ACR) (tl dl : R) n x0,
+  wf M -> rows M = cols M -> 1 <= rows M -> dl <> 0%R -> (0 <= tl)%R ->
+  (exists N : nat -> nat -> SolveC.ACR, left_inverse (rows M) N (ent M)) ->
+  length x0 = cols M -> 2 <= n ->
+  exists x evs, newton_sys Newton2Inst.NCR (mkCfg tl dl n x0) (fun p => Ok (aff Newton2Inst.NCR M c0 p)) = Ok (NOk x, evs) /\
+    length x = cols M /\ is_root Newton2Inst.NCR M c0 x /\
+    (forall y, length y = cols M -> is_root Newton2Inst.NCR M c0 y -> y = x) /\
+    length evs <= 2 * (cols M + 2).
+Print Assumptions newton_sys_affine_C.
+
+Theorem newton_sysjac_affine_C : forall (M : matrix SolveC.ACR) (c0 : list SolveC.ACR) (tl dl : R) n x0,
+  wf M -> rows M = cols M -> 1 <= rows M -> (0 <= tl)%R ->
+  (exists N : nat -> nat -> SolveC.ACR, left_inverse (rows M) N (ent M)) ->
+  length x0 = cols M -> 2 <= n ->
+  exists x evs, newton_sysjac Newton2Inst.NCR (mkCfg tl dl n x0) (fun p => Ok (aff Newton2Inst.NCR M c0 p)) (fun _ => Ok M) = Ok (NOk x, evs) /\
+    length x = cols M /\ is_root Newton2Inst.NCR M c0 x /\
+    (forall y, length y = cols M -> is_root Newton2Inst.NCR M c0 y -> y = x) /\
+    length evs <= 4.
+Proof. exact Newton2Inst.newton_sysjac_affine_C_lemma. Qed.
+Check newton_sysjac_affine_C : forall (M : matrix SolveC.ACR) (c0 : list SolveC.ACR) (tl dl : R) n x0,
+  wf M -> rows M = cols M -> 1 <= rows M -> (0 <= tl)%R ->
+  (exists N : nat -> nat -> SolveC.ACR, left_inverse (rows M) N (ent M)) ->
+  length x0 = cols M -> 2 <= n ->
+  exists x evs, newton_sysjac Newton2Inst.NCR (mkCfg tl dl n x0) (fun p => Ok (aff Newton2Inst.NCR M c0 p)) (fun _ => Ok M) = Ok (NOk x, evs) /\
+    length x = cols M /\ is_root Newton2Inst.NCR M c0 x /\
+    (forall y, length y = cols M -> is_root Newton2Inst.NCR M c0 y -> y = x) /\
+    length evs <= 4.
+Print Assumptions newton_sysjac_affine_C.
+
+(* [[1, i], [0, 1]] with inverse [[1, -i], [0, 1]] *)
+Example newton_sys_affine_C_nonvacuous :
+  wf Newton2Inst.M2c /\ rows Newton2Inst.M2c = cols Newton2Inst.M2c /\ 1 <= rows Newton2Inst.M2c /\
+  (exists N : nat -> nat -> SolveC.ACR, left_inverse (rows Newton2Inst.M2c) N (ent Newton2Inst.M2c)).
+Proof.
+  split; [reflexivity|]. split; [reflexivity|]. split; [cbn; lia|].
+  exists (ent Newton2Inst.N2c). exact Newton2Inst.M2c_left_inverse.
+Qed.
+
+(* ---------------- B. general f over R, the finite-difference scalar solve ---------------- *)
+Local Open Scope R_scope.
+
+(* Ok => close.  [last evs 0] is the point at which the last pass started (each pass calls f at
+   y + delta, y - delta, y in this order). *)
+Theorem newton_ok_near_root_general : forall (f f' : R -> R) (a b m Mb L r : R),
+  (forall c, a <= c <= b -> derivable_pt_lim f c (f' c)) -> 0 < m -> 0 <= L ->
+  (forall c, a <= c <= b -> m <= Rabs (f' c)) -> (forall c, a <= c <= b -> Rabs (f' c) <= Mb) ->
+  (forall u v, a <= u <= b -> a <= v <= b -> Rabs (f' u - f' v) <= L * Rabs (u - v)) ->
+  a <= r <= b -> f r = 0 ->
+  forall (tl dl : R) (n : nat) (x0 x : R) (evs : list R),
+  newton_scalar NRl (mkCfg tl dl n x0) (fun t => Ok (f t)) = Ok (NOk x, evs) ->
+  a <= last evs 0 - Rabs dl -> last evs 0 + Rabs dl <= b ->
+  Rabs (last evs 0 - r) <= Mb / m * tl /\
+  Rabs (x - r) <= L / m * (Mb / m * tl * (Mb / m * tl + Rabs dl)).
+Proof. exact newton_ok_near_root_lemma. Qed.
+Check newton_ok_near_root_general : forall (f f' : R -> R) (a b m Mb L r : R),
+  (forall c, a <= c <= b -> derivable_pt_lim f c (f' c)) -> 0 < m -> 0 <= L ->
+  (forall c, a <= c <= b -> m <= Rabs (f' c)) -> (forall c, a <= c <= b -> Rabs (f' c) <= Mb) ->
+  (forall u v, a <= u <= b -> a <= v <= b -> Rabs (f' u - f' v) <= L * Rabs (u - v)) ->
+  a <= r <= b -> f r = 0 ->
+  forall (tl dl : R) (n : nat) (x0 x : R) (evs : list R),
+  newton_scalar NRl (mkCfg tl dl n x0) (fun t => Ok (f t)) = Ok (NOk x, evs) ->
+  a <= last evs 0 - Rabs dl -> last evs 0 + Rabs dl <= b ->
+  Rabs (last evs 0 - r) <= Mb / m * tl /\
+  Rabs (x - r) <= L / m * (Mb / m * tl * (Mb / m * tl + Rabs dl)).
+Print Assumptions newton_ok_near_root_general.
+
+(* x^3 - 2 on [1, 2] (m = 3, Mb = 12, L = 12, root rc = exp (ln 2 / 3)); the run from 5/4 with delta = 1/4,
+   tol = 1 answers Ok after one pass, whose call points 3/2, 1, 5/4 lie in [1, 2] *)
+Example newton_ok_near_root_general_nonvacuous :
+  (forall c, 1 <= c <= 2 -> derivable_pt_lim cube2 c (cube2' c)) /\ 0 < 3 /\ 0 <= 12 /\
+  (forall c, 1 <= c <= 2 -> 3 <= Rabs (cube2' c)) /\ (forall c, 1 <= c <= 2 -> Rabs (cube2' c) <= 12) /\
+  (forall u v, 1 <= u <= 2 -> 1 <= v <= 2 -> Rabs (cube2' u - cube2' v) <= 12 * Rabs (u - v)) /\
+  1 <= rc <= 2 /\ cube2 rc = 0 /\
+  exists x evs, newton_scalar NRl (mkCfg 1 (1 / 4) 1%nat (5 / 4)) (fun t => Ok (cube2 t)) = Ok (NOk x, evs) /\
+    1 <= last evs 0 - Rabs (1 / 4) /\ last evs 0 + Rabs (1 / 4) <= 2.
+Proof.
+  pose proof rc_bounds as Hrc.
+  split; [intros c _; apply cube2_der|]. split; [lra|]. split; [lra|].
+  split; [exact cube2_lo|]. split; [exact cube2_hi|]. split; [exact cube2_lip|].
+  split; [lra|]. split; [exact rc_root|].
+  do 2 eexists. split; [exact cube2_run|]. cbn [last]. rewrite Rabs_right by lra. lra.
+Qed.
+
+(* inside the basin: no panic *)
+Theorem newton_basin_no_panic : forall (f f' : R -> R) (a b m Mb L r : R),
+  (forall c, a <= c <= b -> derivable_pt_lim f c (f' c)) -> 0 < m -> 0 <= L ->
+  (forall c, a <= c <= b -> m <= Rabs (f' c)) -> (forall c, a <= c <= b -> Rabs (f' c) <= Mb) ->
+  (forall u v, a <= u <= b -> a <= v <= b -> Rabs (f' u - f' v) <= L * Rabs (u - v)) ->
+  a <= r <= b -> f r = 0 ->
+  forall rho tl dl : R, 0 <= rho -> dl <> 0 -> a <= r - rho - Rabs dl -> r + rho + Rabs dl <= b ->
+  L / m * (rho + Rabs dl) < 1 ->
+  forall (n : nat) (x0 : R), Rabs (x0 - r) <= rho ->
+  exists res evs, newton_scalar NRl (mkCfg tl dl n x0) (fun t => Ok (f t)) = Ok (res, evs).
+Proof. exact newton_basin_total_lemma. Qed.
+Check newton_basin_no_panic : forall (f f' : R -> R) (a b m Mb L r : R),
+  (forall c, a <= c <= b -> derivable_pt_lim f c (f' c)) -> 0 < m -> 0 <= L ->
+  (forall c, a <= c <= b -> m <= Rabs (f' c)) -> (forall c, a <= c <= b -> Rabs (f' c) <= Mb) ->
+  (forall u v, a <= u <= b -> a <= v <= b -> Rabs (f' u - f' v) <= L * Rabs (u - v)) ->
+  a <= r <= b -> f r = 0 ->
+  forall rho tl dl : R, 0 <= rho -> dl <> 0 -> a <= r - rho - Rabs dl -> r + rho + Rabs dl <= b ->
+  L / m * (rho + Rabs dl) < 1 ->
+  forall (n : nat) (x0 : R), Rabs (x0 - r) <= rho ->
+  exists res evs, newton_scalar NRl (mkCfg tl dl n x0) (fun t => Ok (f t)) = Ok (res, evs).
+Print Assumptions newton_basin_no_panic.
+
+(* inside the basin: the k-th iterate is within q^k |x0 - r| of the root, q = (L/m)(rho + |delta|);
+   one pass obeys |x' - r| <= (L/m) |y - r| (|y - r| + |delta|)  (Proofs/Newton2Real.v fd_pass_err) *)
+Theorem newton_basin_contraction : forall (f f' : R -> R) (a b m Mb L r : R),
+  (forall c, a <= c <= b -> derivable_pt_lim f c (f' c)) -> 0 < m -> 0 <= L ->
+  (forall c, a <= c <= b -> m <= Rabs (f' c)) -> (forall c, a <= c <= b -> Rabs (f' c) <= Mb) ->
+  (forall u v, a <= u <= b -> a <= v <= b -> Rabs (f' u - f' v) <= L * Rabs (u - v)) ->
+  a <= r <= b -> f r = 0 ->
+  forall rho tl dl : R, 0 <= rho -> dl <> 0 -> a <= r - rho - Rabs dl -> r + rho + Rabs dl <= b ->
+  L / m * (rho + Rabs dl) < 1 ->
+  forall (k : nat) (x0 xk : R), Rabs (x0 - r) <= rho ->
+  niter (scalar_step NRl tl dl (fun t => Ok (f t))) k x0 = Ok xk ->
+  Rabs (xk - r) <= (L / m * (rho + Rabs dl)) ^ k * Rabs (x0 - r).
+Proof. exact newton_basin_iterates_lemma. Qed.
+Check newton_basin_contraction : forall (f f' : R -> R) (a b m Mb L r : R),
+  (forall c, a <= c <= b -> derivable_pt_lim f c (f' c)) -> 0 < m -> 0 <= L ->
+  (forall c, a <= c <= b -> m <= Rabs (f' c)) -> (forall c, a <= c <= b -> Rabs (f' c) <= Mb) ->
+  (forall u v, a <= u <= b -> a <= v <= b -> Rabs (f' u - f' v) <= L * Rabs (u - v)) ->
+  a <= r <= b -> f r = 0 ->
+  forall rho tl dl : R, 0 <= rho -> dl <> 0 -> a <= r - rho - Rabs dl -> r + rho + Rabs dl <= b ->
+  L / m * (rho + Rabs dl) < 1 ->
+  forall (k : nat) (x0 xk : R), Rabs (x0 - r) <= rho ->
+  niter (scalar_step NRl tl dl (fun t => Ok (f t))) k x0 = Ok xk ->
+  Rabs (xk - r) <= (L / m * (rho + Rabs dl)) ^ k * Rabs (x0 - r).
+Print Assumptions newton_basin_contraction.
+
+(* inside the basin: Ok as soon as max_iter exceeds an N with (Mb/m) q^N rho <= tol, at a distance of the
+   order of tol (of tol (tol + |delta|), in fact) from the root *)
+Theorem newton_basin_ok : forall (f f' : R -> R) (a b m Mb L r : R),
+  (forall c, a <= c <= b -> derivable_pt_lim f c (f' c)) -> 0 < m -> 0 <= L ->
+  (forall c, a <= c <= b -> m <= Rabs (f' c)) -> (forall c, a <= c <= b -> Rabs (f' c) <= Mb) ->
+  (forall u v, a <= u <= b -> a <= v <= b -> Rabs (f' u - f' v) <= L * Rabs (u - v)) ->
+  a <= r <= b -> f r = 0 ->
+  forall rho tl dl : R, 0 <= rho -> dl <> 0 -> a <= r - rho - Rabs dl -> r + rho + Rabs dl <= b ->
+  L / m * (rho + Rabs dl) < 1 ->
+  forall (N n : nat) (x0 : R), Rabs (x0 - r) <= rho ->
+  Mb / m * ((L / m * (rho + Rabs dl)) ^ N * rho) <= tl -> (N < n)%nat ->
+  exists x evs, newton_scalar NRl (mkCfg tl dl n x0) (fun t => Ok (f t)) = Ok (NOk x, evs) /\
+    Rabs (x - r) <= rho /\
+    Rabs (x - r) <= L / m * (Mb / m * tl * (Mb / m * tl + Rabs dl)).
+Proof. exact newton_basin_ok_lemma. Qed.
+Check newton_basin_ok : forall (f f' : R -> R) (a b m Mb L r : R),
+  (forall c, a <= c <= b -> derivable_pt_lim f c (f' c)) -> 0 < m -> 0 <= L ->
+  (forall c, a <= c <= b -> m <= Rabs (f' c)) -> (forall c, a <= c <= b -> Rabs (f' c) <= Mb) ->
+  (forall u v, a <= u <= b -> a <= v <= b -> Rabs (f' u - f' v) <= L * Rabs (u - v)) ->
+  a <= r <= b -> f r = 0 ->
+  forall rho tl dl : R, 0 <= rho -> dl <> 0 -> a <= r - rho - Rabs dl -> r + rho + Rabs dl <= b ->
+  L / m * (rho + Rabs dl) < 1 ->
+  forall (N n : nat) (x0 : R), Rabs (x0 - r) <= rho ->
+  Mb / m * ((L / m * (rho + Rabs dl)) ^ N * rho) <= tl -> (N < n)%nat ->
+  exists x evs, newton_scalar NRl (mkCfg tl dl n x0) (fun t => Ok (f t)) = Ok (NOk x, evs) /\
+    Rabs (x - r) <= rho /\
+    Rabs (x - r) <= L / m * (Mb / m * tl * (Mb / m * tl + Rabs dl)).
+Print Assumptions newton_basin_ok.
+
+(* such an N exists for every positive tolerance *)
+Theorem newton_basin_pass_count : forall (f' : R -> R) (a b m Mb L r : R),
+  0 < m -> 0 <= L ->
+  (forall c, a <= c <= b -> m <= Rabs (f' c)) -> (forall c, a <= c <= b -> Rabs (f' c) <= Mb) ->
+  a <= r <= b ->
+  forall rho tl dl : R, 0 <= rho -> a <= r - rho - Rabs dl -> r + rho + Rabs dl <= b ->
+  L / m * (rho + Rabs dl) < 1 -> 0 < tl ->
+  exists N : nat, Mb / m * ((L / m * (rho + Rabs dl)) ^ N * rho) <= tl.
+Proof. exact basin_N_exists_lemma. Qed.
+Check newton_basin_pass_count : forall (f' : R -> R) (a b m Mb L r : R),
+  0 < m -> 0 <= L ->
+  (forall c, a <= c <= b -> m <= Rabs (f' c)) -> (forall c, a <= c <= b -> Rabs (f' c) <= Mb) ->
+  a <= r <= b ->
+  forall rho tl dl : R, 0 <= rho -> a <= r - rho - Rabs dl -> r + rho + Rabs dl <= b ->
+  L / m * (rho + Rabs dl) < 1 -> 0 < tl ->
+  exists N : nat, Mb / m * ((L / m * (rho + Rabs dl)) ^ N * rho) <= tl.
+Print Assumptions newton_basin_pass_count.
+
+(* the basin hypotheses hold for x^3 - 2 with rho = delta = 1/10 (q = 4/5), x0 = 5/4, tol = 1, N = 0, max_iter = 1
+   (the hypotheses on f are those of newton_ok_near_root_general_nonvacuous) *)
+Example newton_basin_nonvacuous :
+  0 <= 1 / 10 /\ 1 / 10 <> 0 /\ 1 <= rc - 1 / 10 - Rabs (1 / 10) /\ rc + 1 / 10 + Rabs (1 / 10) <= 2 /\
+  12 / 3 * (1 / 10 + Rabs (1 / 10)) < 1 /\ Rabs (5 / 4 - rc) <= 1 / 10 /\
+  12 / 3 * ((12 / 3 * (1 / 10 + Rabs (1 / 10))) ^ 0 * (1 / 10)) <= 1 /\ (0 < 1)%nat.
+Proof.
+  pose proof rc_bounds as Hrc. rewrite (Rabs_right (1 / 10)) by lra.
+  repeat split; try lra; [|auto].
+  unfold Rabs. destruct (Rcase_abs (5 / 4 - rc)); lra.
+Qed.
+
+(* ---------------- C. the supplied-derivative variant on a 1 x 1 system ---------------- *)
+(* quadratic convergence, one step: the pass of solve_jacobian on p = [y] |-> [f y] with Jacobian [[f' y]] *)
+Theorem newton_quadratic_step : forall (f f' : R -> R) (a b m Mb L r : R),
+  (forall c, a <= c <= b -> derivable_pt_lim f c (f' c)) -> 0 < m -> 0 <= L ->
+  (forall c, a <= c <= b -> m <= Rabs (f' c)) -> (forall c, a <= c <= b -> Rabs (f' c) <= Mb) ->
+  (forall u v, a <= u <= b -> a <= v <= b -> Rabs (f' u - f' v) <= L * Rabs (u - v)) ->
+  a <= r <= b -> f r = 0 ->
+  forall (tl y : R), a <= y <= b ->
+  exists x' bt e,
+    sysjac_step NRl tl (fun p => let* x := rd p 0 in Ok [f x])
+                       (fun p => let* x := rd p 0 in Ok (@mkM AR [f' x] 1 1)) [y] = Ok ([x'], bt, e) /\
+    Rabs (x' - r) <= L / m * (Rabs (y - r) * Rabs (y - r)).
+Proof. exact newton_quadratic_lemma. Qed.
+Check newton_quadratic_step : forall (f f' : R -> R) (a b m Mb L r : R),
+  (forall c, a <= c <= b -> derivable_pt_lim f c (f' c)) -> 0 < m -> 0 <= L ->
+  (forall c, a <= c <= b -> m <= Rabs (f' c)) -> (forall c, a <= c <= b -> Rabs (f' c) <= Mb) ->
+  (forall u v, a <= u <= b -> a <= v <= b -> Rabs (f' u - f' v) <= L * Rabs (u - v)) ->
+  a <= r <= b -> f r = 0 ->
+  forall (tl y : R), a <= y <= b ->
+  exists x' bt e,
+    sysjac_step NRl tl (fun p => let* x := rd p 0 in Ok [f x])
+                       (fun p => let* x := rd p 0 in Ok (@mkM AR [f' x] 1 1)) [y] = Ok ([x'], bt, e) /\
+    Rabs (x' - r) <= L / m * (Rabs (y - r) * Rabs (y - r)).
+Print Assumptions newton_quadratic_step.
+(* non-vacuity: the hypotheses on f are those of newton_ok_near_root_general_nonvacuous; y = 5/4 lies in [1, 2] *)
+
+(* monotone global convergence: f' nondecreasing on [r, x0] (f convex), 0 < f'(r), start right of the root *)
+Theorem newton_monotone_no_panic : forall (f f' : R -> R) (r x0 tl : R),
+  r <= x0 -> f r = 0 -> (forall c, r <= c <= x0 -> derivable_pt_lim f c (f' c)) ->
+  (forall u v, r <= u -> u <= v -> v <= x0 -> f' u <= f' v) -> 0 < f' r ->
+  forall (dl : R) (n : nat),
+  exists res evs,
+    newton_sysjac NRl (mkCfg tl dl n [x0]) (fun p => let* x := rd p 0 in Ok [f x])
+                  (fun p => let* x := rd p 0 in Ok (@mkM AR [f' x] 1 1)) = Ok (res, evs).
+Proof. exact newton_monotone_total_lemma. Qed.
+Check newton_monotone_no_panic : forall (f f' : R -> R) (r x0 tl : R),
+  r <= x0 -> f r = 0 -> (forall c, r <= c <= x0 -> derivable_pt_lim f c (f' c)) ->
+  (forall u v, r <= u -> u <= v -> v <= x0 -> f' u <= f' v) -> 0 < f' r ->
+  forall (dl : R) (n : nat),
+  exists res evs,
+    newton_sysjac NRl (mkCfg tl dl n [x0]) (fun p => let* x := rd p 0 in Ok [f x])
+                  (fun p => let* x := rd p 0 in Ok (@mkM AR [f' x] 1 1)) = Ok (res, evs).
+Print Assumptions newton_monotone_no_panic.
+
+(* the iterates: x_k in [r, x0], x_{k+1} = x_k - f(x_k)/f'(x_k), r <= x_{k+1} <= x_k *)
+Theorem newton_monotone_iterates : forall (f f' : R -> R) (r x0 tl : R),
+  r <= x0 -> f r = 0 -> (forall c, r <= c <= x0 -> derivable_pt_lim f c (f' c)) ->
+  (forall u v, r <= u -> u <= v -> v <= x0 -> f' u <= f' v) -> 0 < f' r ->
+  forall (k : nat) (pk : list R),
+  niter (sysjac_step NRl tl (fun p => let* x := rd p 0 in Ok [f x])
+                            (fun p => let* x := rd p 0 in Ok (@mkM AR [f' x] 1 1))) k [x0] = Ok pk ->
+  exists z, pk = [z] /\ r <= z <= x0 /\
+    niter (sysjac_step NRl tl (fun p => let* x := rd p 0 in Ok [f x])
+                              (fun p => let* x := rd p 0 in Ok (@mkM AR [f' x] 1 1))) (S k) [x0]
+      = Ok [z - f z / f' z] /\
+    r <= z - f z / f' z <= z.
+Proof. exact newton_monotone_iterates_lemma. Qed.
+Check newton_monotone_iterates : forall (f f' : R -> R) (r x0 tl : R),
+  r <= x0 -> f r = 0 -> (forall c, r <= c <= x0 -> derivable_pt_lim f c (f' c)) ->
+  (forall u v, r <= u -> u <= v -> v <= x0 -> f' u <= f' v) -> 0 < f' r ->
+  forall (k : nat) (pk : list R),
+  niter (sysjac_step NRl tl (fun p => let* x := rd p 0 in Ok [f x])
+                            (fun p => let* x := rd p 0 in Ok (@mkM AR [f' x] 1 1))) k [x0] = Ok pk ->
+  exists z, pk = [z] /\ r <= z <= x0 /\
+    niter (sysjac_step NRl tl (fun p => let* x := rd p 0 in Ok [f x])
+                              (fun p => let* x := rd p 0 in Ok (@mkM AR [f' x] 1 1))) (S k) [x0]
+      = Ok [z - f z / f' z] /\
+    r <= z - f z / f' z <= z.
+Print Assumptions newton_monotone_iterates.
+
+(* every Ok answer lies within tol / f'(r) to the right of the root *)
+Theorem newton_monotone_ok_close : forall (f f' : R -> R) (r x0 tl : R),
+  r <= x0 -> f r = 0 -> (forall c, r <= c <= x0 -> derivable_pt_lim f c (f' c)) ->
+  (forall u v, r <= u -> u <= v -> v <= x0 -> f' u <= f' v) -> 0 < f' r ->
+  forall (dl : R) (n : nat) (p : list R) evs,
+  newton_sysjac NRl (mkCfg tl dl n [x0]) (fun p => let* x := rd p 0 in Ok [f x])
+                (fun p => let* x := rd p 0 in Ok (@mkM AR [f' x] 1 1)) = Ok (NOk p, evs) ->
+  exists x, p = [x] /\ r <= x <= x0 /\ x - r <= tl / f' r.
+Proof. exact newton_monotone_ok_close_lemma. Qed.
+Check newton_monotone_ok_close : forall (f f' : R -> R) (r x0 tl : R),
+  r <= x0 -> f r = 0 -> (forall c, r <= c <= x0 -> derivable_pt_lim f c (f' c)) ->
+  (forall u v, r <= u -> u <= v -> v <= x0 -> f' u <= f' v) -> 0 < f' r ->
+  forall (dl : R) (n : nat) (p : list R) evs,
+  newton_sysjac NRl (mkCfg tl dl n [x0]) (fun p => let* x := rd p 0 in Ok [f x])
+                (fun p => let* x := rd p 0 in Ok (@mkM AR [f' x] 1 1)) = Ok (NOk p, evs) ->
+  exists x, p = [x] /\ r <= x <= x0 /\ x - r <= tl / f' r.
+Print Assumptions newton_monotone_ok_close.
+
+(* global convergence with an explicit pass count: max_iter * tol > f'(x0) (x0 - r) => Ok *)
+Theorem newton_monotone : forall (f f' : R -> R) (r x0 tl : R),
+  r <= x0 -> f r = 0 -> (forall c, r <= c <= x0 -> derivable_pt_lim f c (f' c)) ->
+  (forall u v, r <= u -> u <= v -> v <= x0 -> f' u <= f' v) -> 0 < f' r ->
+  forall (dl : R) (n : nat), f' x0 * (x0 - r) < INR n * tl ->
+  exists x evs,
+    newton_sysjac NRl (mkCfg tl dl n [x0]) (fun p => let* x := rd p 0 in Ok [f x])
+                  (fun p => let* x := rd p 0 in Ok (@mkM AR [f' x] 1 1)) = Ok (NOk [x], evs) /\
+    r <= x <= x0 /\ x - r <= tl / f' r.
+Proof. exact newton_monotone_ok_lemma. Qed.
+Check newton_monotone : forall (f f' : R -> R) (r x0 tl : R),
+  r <= x0 -> f r = 0 -> (forall c, r <= c <= x0 -> derivable_pt_lim f c (f' c)) ->
+  (forall u v, r <= u -> u <= v -> v <= x0 -> f' u <= f' v) -> 0 < f' r ->
+  forall (dl : R) (n : nat), f' x0 * (x0 - r) < INR n * tl ->
+  exists x evs,
+    newton_sysjac NRl (mkCfg tl dl n [x0]) (fun p => let* x := rd p 0 in Ok [f x])
+                  (fun p => let* x := rd p 0 in Ok (@mkM AR [f' x] 1 1)) = Ok (NOk [x], evs) /\
+    r <= x <= x0 /\ x - r <= tl / f' r.
+Print Assumptions newton_monotone.
+
+(* x^3 - 2 from x0 = 2 with tol = 1/2: the budget f'(2) (2 - rc) < 12 * 0.8 = 9.6 is exceeded by 20 passes *)
+Example newton_monotone_nonvacuous :
+  rc <= 2 /\ cube2 rc = 0 /\ (forall c, rc <= c <= 2 -> derivable_pt_lim cube2 c (cube2' c)) /\
+  (forall u v, rc <= u -> u <= v -> v <= 2 -> cube2' u <= cube2' v) /\ 0 < cube2' rc /\
+  cube2' 2 * (2 - rc) < INR 20 * (1 / 2).
+Proof.
+  pose proof rc_bounds as Hrc.
+  split; [lra|]. split; [exact rc_root|]. split; [intros c _; apply cube2_der|].
+  split; [exact cube2_convex|]. split; [exact cube2_pos_at_root|].
+  unfold cube2'. replace (INR 20) with 20 by (cbn; ring). lra.
+Qed.
+
+(* ---------------- D. further variants; sharpness ---------------- *)
+(* x^2 - c: from any positive start the answer IS Ok (and then within tol of sqrt c) once max_iter is large enough *)
+Theorem newton_sqrt_converges : forall (c tl dl : R), 0 < c -> dl <> 0 ->
+  forall (n : nat) (x0 : R), 0 < x0 ->
+  (x0 + c / x0) / 2 - R_sqrt.sqrt c < INR (n - 1) * tl ->
+  exists x evs, newton_scalar NRl (mkCfg tl dl n x0) (fun x => Ok (x * x - c)) = Ok (NOk x, evs) /\
+    Rabs (x - R_sqrt.sqrt c) <= tl.
+Proof. exact newton_sqrt_converges_lemma. Qed.
+Check newton_sqrt_converges : forall (c tl dl : R), 0 < c -> dl <> 0 ->
+  forall (n : nat) (x0 : R), 0 < x0 ->
+  (x0 + c / x0) / 2 - R_sqrt.sqrt c < INR (n - 1) * tl ->
+  exists x evs, newton_scalar NRl (mkCfg tl dl n x0) (fun x => Ok (x * x - c)) = Ok (NOk x, evs) /\
+    Rabs (x - R_sqrt.sqrt c) <= tl.
+Print Assumptions newton_sqrt_converges.
+
+(* c = 4 from x0 = 1 (first iterate 5/2), tol = 1/2, three passes allowed *)
+Example newton_sqrt_converges_nonvacuous :
+  0 < 4 /\ 1 <> 0 /\ 0 < 1 /\ (1 + 4 / 1) / 2 - R_sqrt.sqrt 4 < INR (3 - 1) * (1 / 2).
+Proof.
+  replace 4 with (2 * 2) at 3 by ring. rewrite sqrt_square by lra. cbn [INR Nat.sub]. lra.
+Qed.
+
+(* accuracy of the slope the scalar pass divides by: the central difference quotient
+   (f(y + delta) - f(y - delta)) / (2 delta) is within (delta^2 / 6) sup |f^(3)| of f'(y) *)
+Theorem central_difference_truncation : forall (g g1 g2 g3 : R -> R) (y d B : R), d <> 0 ->
+  (forall x, y - Rabs d <= x <= y + Rabs d -> derivable_pt_lim g x (g1 x)) ->
+  (forall x, y - Rabs d <= x <= y + Rabs d -> derivable_pt_lim g1 x (g2 x)) ->
+  (forall x, y - Rabs d <= x <= y + Rabs d -> derivable_pt_lim g2 x (g3 x)) ->
+  (forall x, y - Rabs d <= x <= y + Rabs d -> Rabs (g3 x) <= B) ->
+  Rabs ((g (y + d) - g (y - d)) / (2 * d) - g1 y) <= d * d / 6 * B.
+Proof. exact Newton2Cdq.central_diff_trunc. Qed.
+Check central_difference_truncation : forall (g g1 g2 g3 : R -> R) (y d B : R), d <> 0 ->
+  (forall x, y - Rabs d <= x <= y + Rabs d -> derivable_pt_lim g x (g1 x)) ->
+  (forall x, y - Rabs d <= x <= y + Rabs d -> derivable_pt_lim g1 x (g2 x)) ->
+  (forall x, y - Rabs d <= x <= y + Rabs d -> derivable_pt_lim g2 x (g3 x)) ->
+  (forall x, y - Rabs d <= x <= y + Rabs d -> Rabs (g3 x) <= B) ->
+  Rabs ((g (y + d) - g (y - d)) / (2 * d) - g1 y) <= d * d / 6 * B.
+Print Assumptions central_difference_truncation.
+
+Theorem scalar_derivative_truncation : forall (f f1 f2 f3 : R -> R) (B tl dl y x' : R) bt e,
+  scalar_step NRl tl dl (fun t => Ok (f t)) y = Ok (x', bt, e) ->
+  (forall x, y - Rabs dl <= x <= y + Rabs dl -> derivable_pt_lim f x (f1 x)) ->
+  (forall x, y - Rabs dl <= x <= y + Rabs dl -> derivable_pt_lim f1 x (f2 x)) ->
+  (forall x, y - Rabs dl <= x <= y + Rabs dl -> derivable_pt_lim f2 x (f3 x)) ->
+  (forall x, y - Rabs dl <= x <= y + Rabs dl -> Rabs (f3 x) <= B) ->
+  x' = y - f y / ((f (y + dl) - f (y - dl)) / (2 * dl)) /\
+  Rabs ((f (y + dl) - f (y - dl)) / (2 * dl) - f1 y) <= dl * dl / 6 * B.
+Proof. exact Newton2Cdq.scalar_deriv_trunc_lemma. Qed.
+Check scalar_derivative_truncation : forall (f f1 f2 f3 : R -> R) (B tl dl y x' : R) bt e,
+  scalar_step NRl tl dl (fun t => Ok (f t)) y = Ok (x', bt, e) ->
+  (forall x, y - Rabs dl <= x <= y + Rabs dl -> derivable_pt_lim f x (f1 x)) ->
+  (forall x, y - Rabs dl <= x <= y + Rabs dl -> derivable_pt_lim f1 x (f2 x)) ->
+  (forall x, y - Rabs dl <= x <= y + Rabs dl -> derivable_pt_lim f2 x (f3 x)) ->
+  (forall x, y - Rabs dl <= x <= y + Rabs dl -> Rabs (f3 x) <= B) ->
+  x' = y - f y / ((f (y + dl) - f (y - dl)) / (2 * dl)) /\
+  Rabs ((f (y + dl) - f (y - dl)) / (2 * dl) - f1 y) <= dl * dl / 6 * B.
+Print Assumptions scalar_derivative_truncation.
+
+(* x^3 - 2 at y = 5/4, delta = 1/4: the quotient is 19/4, f'(5/4) = 75/16, the third derivative is 6 = B,
+   and the bound (1/16)/6 * 6 = 1/16 is attained *)
+Example scalar_derivative_truncation_nonvacuous :
+  (exists x' bt e, scalar_step NRl 1 (1 / 4) (fun t => Ok (cube2 t)) (5 / 4) = Ok (x', bt, e)) /\
+  (forall x, derivable_pt_lim cube2 x (cube2' x)) /\ (forall x, derivable_pt_lim cube2' x (6 * x)) /\
+  (forall x, derivable_pt_lim (fun x => 6 * x) x 6) /\ Rabs 6 <= 6.
+Proof.
+  split; [do 3 eexists; exact cube2_pass|]. split; [exact cube2_der|]. split; [exact cube2_der2|].
+  split; [exact cube2_der3|]. rewrite Rabs_right; lra.
+Qed.
+
+(* the finite-difference system solve on a nonlinear 1 x 1 system p = [x] |-> [f x]:
+   Ok => close (y is the iterate at which the pass that answered started) *)
+Theorem newton_sys1d_ok_near_root : forall (f f' : R -> R) (a b m Mb L r : R),
+  (forall c, a <= c <= b -> derivable_pt_lim f c (f' c)) -> 0 < m -> 0 <= L ->
+  (forall c, a <= c <= b -> m <= Rabs (f' c)) -> (forall c, a <= c <= b -> Rabs (f' c) <= Mb) ->
+  (forall u v, a <= u <= b -> a <= v <= b -> Rabs (f' u - f' v) <= L * Rabs (u - v)) ->
+  a <= r <= b -> f r = 0 ->
+  forall (tl dl : R) (n : nat) (x0 : R) (p : list R) evs,
+  newton_sys NRl (mkCfg tl dl n [x0]) (fun p => let* x := rd p 0 in Ok [f x]) = Ok (NOk p, evs) ->
+  exists x y k, (k < n)%nat /\ p = [x] /\
+    niter (sys_step NRl tl dl (fun p => let* x := rd p 0 in Ok [f x])) k [x0] = Ok [y] /\
+    (a <= y - Rabs dl -> y + Rabs dl <= b ->
+     Rabs (y - r) <= tl / m /\ Rabs (x - r) <= L / m * (tl / m * (tl / m + Rabs dl))).
+Proof. exact newton_sys1d_ok_near_root_lemma. Qed.
+Check newton_sys1d_ok_near_root : forall (f f' : R -> R) (a b m Mb L r : R),
+  (forall c, a <= c <= b -> derivable_pt_lim f c (f' c)) -> 0 < m -> 0 <= L ->
+  (forall c, a <= c <= b -> m <= Rabs (f' c)) -> (forall c, a <= c <= b -> Rabs (f' c) <= Mb) ->
+  (forall u v, a <= u <= b -> a <= v <= b -> Rabs (f' u - f' v) <= L * Rabs (u - v)) ->
+  a <= r <= b -> f r = 0 ->
+  forall (tl dl : R) (n : nat) (x0 : R) (p : list R) evs,
+  newton_sys NRl (mkCfg tl dl n [x0]) (fun p => let* x := rd p 0 in Ok [f x]) = Ok (NOk p, evs) ->
+  exists x y k, (k < n)%nat /\ p = [x] /\
+    niter (sys_step NRl tl dl (fun p => let* x := rd p 0 in Ok [f x])) k [x0] = Ok [y] /\
+    (a <= y - Rabs dl -> y + Rabs dl <= b ->
+     Rabs (y - r) <= tl / m /\ Rabs (x - r) <= L / m * (tl / m * (tl / m + Rabs dl))).
+Print Assumptions newton_sys1d_ok_near_root.
+
+Theorem newton_sys1d_basin_no_panic : forall (f f' : R -> R) (a b m Mb L r : R),
+  (forall c, a <= c <= b -> derivable_pt_lim f c (f' c)) -> 0 < m -> 0 <= L ->
+  (forall c, a <= c <= b -> m <= Rabs (f' c)) -> (forall c, a <= c <= b -> Rabs (f' c) <= Mb) ->
+  (forall u v, a <= u <= b -> a <= v <= b -> Rabs (f' u - f' v) <= L * Rabs (u - v)) ->
+  a <= r <= b -> f r = 0 ->
+  forall rho tl dl : R, 0 <= rho -> dl <> 0 -> a <= r - rho - Rabs dl -> r + rho + Rabs dl <= b ->
+  L / m * (rho + Rabs dl) < 1 ->
+  forall (n : nat) (x0 : R), Rabs (x0 - r) <= rho ->
+  exists res evs, newton_sys NRl (mkCfg tl dl n [x0]) (fun p => let* x := rd p 0 in Ok [f x]) = Ok (res, evs).
+Proof. exact newton_sys1d_basin_total_lemma. Qed.
+Check newton_sys1d_basin_no_panic : forall (f f' : R -> R) (a b m Mb L r : R),
+  (forall c, a <= c <= b -> derivable_pt_lim f c (f' c)) -> 0 < m -> 0 <= L ->
+  (forall c, a <= c <= b -> m <= Rabs (f' c)) -> (forall c, a <= c <= b -> Rabs (f' c) <= Mb) ->
+  (forall u v, a <= u <= b -> a <= v <= b -> Rabs (f' u - f' v) <= L * Rabs (u - v)) ->
+  a <= r <= b -> f r = 0 ->
+  forall rho tl dl : R, 0 <= rho -> dl <> 0 -> a <= r - rho - Rabs dl -> r + rho + Rabs dl <= b ->
+  L / m * (rho + Rabs dl) < 1 ->
+  forall (n : nat) (x0 : R), Rabs (x0 - r) <= rho ->
+  exists res evs, newton_sys NRl (mkCfg tl dl n [x0]) (fun p => let* x := rd p 0 in Ok [f x]) = Ok (res, evs).
+Print Assumptions newton_sys1d_basin_no_panic.
+
+Theorem newton_sys1d_basin_ok : forall (f f' : R -> R) (a b m Mb L r : R),
+  (forall c, a <= c <= b -> derivable_pt_lim f c (f' c)) -> 0 < m -> 0 <= L ->
+  (forall c, a <= c <= b -> m <= Rabs (f' c)) -> (forall c, a <= c <= b -> Rabs (f' c) <= Mb) ->
+  (forall u v, a <= u <= b -> a <= v <= b -> Rabs (f' u - f' v) <= L * Rabs (u - v)) ->
+  a <= r <= b -> f r = 0 ->
+  forall rho tl dl : R, 0 <= rho -> dl <> 0 -> a <= r - rho - Rabs dl -> r + rho + Rabs dl <= b ->
+  L / m * (rho + Rabs dl) < 1 ->
+  forall (N n : nat) (x0 : R), Rabs (x0 - r) <= rho ->
+  Mb * ((L / m * (rho + Rabs dl)) ^ N * rho) <= tl -> (N < n)%nat ->
+  exists x evs, newton_sys NRl (mkCfg tl dl n [x0]) (fun p => let* x := rd p 0 in Ok [f x]) = Ok (NOk [x], evs) /\
+    Rabs (x - r) <= rho /\
+    Rabs (x - r) <= L / m * (tl / m * (tl / m + Rabs dl)).
+Proof. exact newton_sys1d_basin_ok_lemma. Qed.
+Check newton_sys1d_basin_ok : forall (f f' : R -> R) (a b m Mb L r : R),
+  (forall c, a <= c <= b -> derivable_pt_lim f c (f' c)) -> 0 < m -> 0 <= L ->
+  (forall c, a <= c <= b -> m <= Rabs (f' c)) -> (forall c, a <= c <= b -> Rabs (f' c) <= Mb) ->
+  (forall u v, a <= u <= b -> a <= v <= b -> Rabs (f' u - f' v) <= L * Rabs (u - v)) ->
+  a <= r <= b -> f r = 0 ->
+  forall rho tl dl : R, 0 <= rho -> dl <> 0 -> a <= r - rho - Rabs dl -> r + rho + Rabs dl <= b ->
+  L / m * (rho + Rabs dl) < 1 ->
+  forall (N n : nat) (x0 : R), Rabs (x0 - r) <= rho ->
+  Mb * ((L / m * (rho + Rabs dl)) ^ N * rho) <= tl -> (N < n)%nat ->
+  exists x evs, newton_sys NRl (mkCfg tl dl n [x0]) (fun p => let* x := rd p 0 in Ok [f x]) = Ok (NOk [x], evs) /\
+    Rabs (x - r) <= rho /\
+    Rabs (x - r) <= L / m * (tl / m * (tl / m + Rabs dl)).
+Print Assumptions newton_sys1d_basin_ok.
+
+(* x^3 - 2 again (hypotheses on f: newton_ok_near_root_general_nonvacuous; basin: newton_basin_nonvacuous) with
+   tol = 2: Mb q^0 rho = 12/10 <= 2 *)
+Example newton_sys1d_basin_nonvacuous :
+  12 * ((12 / 3 * (1 / 10 + Rabs (1 / 10))) ^ 0 * (1 / 10)) <= 2 /\ (0 < 1)%nat.
+Proof. split; [cbn [pow]; lra|auto]. Qed.
+Local Close Scope R_scope.
+
+(* the scalar solve on an affine function over any field: exact root -b/a within two passes, at most six calls.
+   The hypothesis on divr says that "element / real" undoes the multiplication by 2 delta (f64 / f64, Complex / f64). *)
+Theorem newton_scalar_affine_exact : forall (O : NOps) (FL : FieldLaws (NA O)) (a b : NA O) (tl dl : NR O),
+  a <> zero ->
+  (forall z : NA O, divr O (mul z (add (emb O dl) (emb O dl))) (mul (two O) dl) = Ok z) ->
+  leb (mag O zero) tl = true ->
+  forall n x0, 2 <= n ->
+  exists evs, newton_scalar O (mkCfg tl dl n x0) (fun x => Ok (add (mul a x) b)) =
+                Ok (NOk (neg (mul b (fl_inv (NA O) FL a))), evs) /\ length evs <= 6.
+Proof. exact Newton2Cplx.newton_scalar_affine_lemma. Qed.
+Check newton_scalar_affine_exact : forall (O : NOps) (FL : FieldLaws (NA O)) (a b : NA O) (tl dl : NR O),
+  a <> zero ->
+  (forall z : NA O, divr O (mul z (add (emb O dl) (emb O dl))) (mul (two O) dl) = Ok z) ->
+  leb (mag O zero) tl = true ->
+  forall n x0, 2 <= n ->
+  exists evs, newton_scalar O (mkCfg tl dl n x0) (fun x => Ok (add (mul a x) b)) =
+                Ok (NOk (neg (mul b (fl_inv (NA O) FL a))), evs) /\ length evs <= 6.
+Print Assumptions newton_scalar_affine_exact.
+
+(* Newton<Cmplx>::solve on a z + b *)
+Theorem newton_affine_exact_C : forall (a b : SolveC.ACR) (tl dl : R) (n : nat) (x0 : SolveC.ACR),
+  a <> zero -> dl <> 0%R -> (0 <= tl)%R -> 2 <= n ->
+  exists evs, newton_scalar Newton2Inst.NCR (mkCfg tl dl n x0) (fun z => Ok (add (mul a z) b)) =
+                Ok (NOk (neg (mul b (SolveC.C_inv a))), evs) /\
+              add (mul a (neg (mul b (SolveC.C_inv a)))) b = zero /\ length evs <= 6.
+Proof. exact Newton2Cplx.newton_affine_exact_C_lemma. Qed.
+Check newton_affine_exact_C : forall (a b : SolveC.ACR) (tl dl : R) (n : nat) (x0 : SolveC.ACR),
+  a <> zero -> dl <> 0%R -> (0 <= tl)%R -> 2 <= n ->
+  exists evs, newton_scalar Newton2Inst.NCR (mkCfg tl dl n x0) (fun z => Ok (add (mul a z) b)) =
+                Ok (NOk (neg (mul b (SolveC.C_inv a))), evs) /\
+              add (mul a (neg (mul b (SolveC.C_inv a)))) b = zero /\ length evs <= 6.
+Print Assumptions newton_affine_exact_C.
+
+(* a = i is a nonzero slope; and the divr hypothesis of newton_scalar_affine_exact holds at C for delta = 1/8 *)
+Example newton_affine_exact_C_nonvacuous :
+  Complex.mkC (A:=SolveR.AR) 0%R 1%R <> (zero : SolveC.ACR) /\
+  (forall z : SolveC.ACR,
+     divr Newton2Inst.NCR (mul z (add (emb Newton2Inst.NCR (1 / 8)%R) (emb Newton2Inst.NCR (1 / 8)%R)))
+          (mul (two Newton2Inst.NCR) (1 / 8)%R) = Ok z).
+Proof. split; [exact Newton2Cplx.i_nonzero|]. apply Newton2Cplx.NCR_divr. lra. Qed.
+
+(* sharpness of 2 <= max_iter: with one pass the value is the exact root, the verdict depends on the residual of the guess *)
+Theorem newton_sys_affine_one_pass : forall (O : NOps), FieldLaws (NA O) -> PivLaws (NA O) ->
+  forall (M : matrix (NA O)) (c0 : list (NA O)) (tl dl : NR O),
+  wf M -> rows M = cols M -> 1 <= rows M -> emb O dl <> zero ->
+  ltb (mag O zero) (mag O zero) = false -> leb (mag O zero) tl = true ->
+  (exists N : nat -> nat -> NA O, left_inverse (rows M) N (ent M)) ->
+  forall x0, length x0 = cols M ->
+  exists x evs mr, norm_inf O (aff O M c0 x0) = Ok mr /\ is_root O M c0 x /\
+    newton_sys O (mkCfg tl dl 1 x0) (fun p => Ok (aff O M c0 p)) = Ok ((if leb mr tl then NOk x else NErr x), evs).
+Proof. exact newton_sys_affine_one_pass_lemma. Qed.
+Check newton_sys_affine_one_pass : forall (O : NOps), FieldLaws (NA O) -> PivLaws (NA O) ->
+  forall (M : matrix (NA O)) (c0 : list (NA O)) (tl dl : NR O),
+  wf M -> rows M = cols M -> 1 <= rows M -> emb O dl <> zero ->
+  ltb (mag O zero) (mag O zero) = false -> leb (mag O zero) tl = true ->
+  (exists N : nat -> nat -> NA O, left_inverse (rows M) N (ent M)) ->
+  forall x0, length x0 = cols M ->
+  exists x evs mr, norm_inf O (aff O M c0 x0) = Ok mr /\ is_root O M c0 x /\
+    newton_sys O (mkCfg tl dl 1 x0) (fun p => Ok (aff O M c0 p)) = Ok ((if leb mr tl then NOk x else NErr x), evs).
+Print Assumptions newton_sys_affine_one_pass.
+(* non-vacuity: newton_sys_affine_hyps_nonvacuous; on that system from (0,0) the residual norm 5 exceeds tol = 1/1000:
+   the real code answers Err (4/5, 7/5) for max_iter = 1 (observed through the executor) *)
+
+(* sharpness of 1 <= rows M: a 0-dimensional system panics in the residual norm (Vector::norm_inf reads vec[0]) *)
+Theorem newton_sys_empty_panics : forall (O : NOps) (tl dl : NR O) (n : nat) (f : list (NA O) -> res (list (NA O))),
+  f [] = Ok [] -> newton_sys O (mkCfg tl dl (S n) []) f = Panic Index.
+Proof. exact newton_sys_empty_panics_lemma. Qed.
+Check newton_sys_empty_panics : forall (O : NOps) (tl dl : NR O) (n : nat) (f : list (NA O) -> res (list (NA O))),
+  f [] = Ok [] -> newton_sys O (mkCfg tl dl (S n) []) f = Panic Index.
+Print Assumptions newton_sys_empty_panics.
+
+Theorem newton_sysjac_empty_panics : forall (O : NOps) (tl dl : NR O) (n : nat) (f : list (NA O) -> res (list (NA O))) jac,
+  f [] = Ok [] -> newton_sysjac O (mkCfg tl dl (S n) []) f jac = Panic Index.
+Proof. exact newton_sysjac_empty_panics_lemma. Qed.
+Check newton_sysjac_empty_panics : forall (O : NOps) (tl dl : NR O) (n : nat) (f : list (NA O) -> res (list (NA O))) jac,
+  f [] = Ok [] -> newton_sysjac O (mkCfg tl dl (S n) []) f jac = Panic Index.
+Print Assumptions newton_sysjac_empty_panics.
+
+Example newton_sys_empty_panics_nonvacuous : (fun p : list AQ => Ok p) [] = Ok [].
+Proof. reflexivity. Qed.
+
+(* ---------------- E. nonlinear systems of ANY dimension, decoupled case (solve_jacobian over R) ----------------
+   F(x)_i = f_i(x_i), jac(x) = diag(f_i'(x_i)), i < dim, for arbitrary closures returning these values; each f_i as in
+   part B on [a_i, b_i] with common constants m, Mb, L and root r_i.  The dim x dim Gaussian elimination of every pass
+   is discharged by C01 (completeness + soundness + a left inverse of the diagonal matrix). *)
+Local Open Scope R_scope.
+Definition decoupled_system (dim : nat) (f f' : nat -> R -> R) (F : list R -> res (list R)) (Jc : list R -> res (matrix AR)) : Prop :=
+  (forall x, length x = dim ->
+     exists v, F x = Ok v /\ length v = dim /\ forall i, (i < dim)%nat -> nth i v 0 = f i (nth i x 0)) /\
+  (forall x, length x = dim ->
+     exists J, Jc x = Ok J /\ wf J /\ rows J = dim /\ cols J = dim /\
+       forall i j, (i < dim)%nat -> (j < dim)%nat -> ent J i j = if (i =? j)%nat then f' i (nth i x 0) else 0).
+Definition smooth_components (dim : nat) (f f' : nat -> R -> R) (a b r : nat -> R) (m Mb L : R) : Prop :=
+  (forall i, (i < dim)%nat -> forall c, a i <= c <= b i -> derivable_pt_lim (f i) c (f' i c)) /\ 0 < m /\ 0 <= L /\
+  (forall i, (i < dim)%nat -> forall c, a i <= c <= b i -> m <= Rabs (f' i c)) /\
+  (forall i, (i < dim)%nat -> forall c, a i <= c <= b i -> Rabs (f' i c) <= Mb) /\
+  (forall i, (i < dim)%nat -> forall u v, a i <= u <= b i -> a i <= v <= b i -> Rabs (f' i u - f' i v) <= L * Rabs (u - v)) /\
+  (forall i, (i < dim)%nat -> f i (r i) = 0).
+
+(* one pass, any dimension: x'_i = x_i - f_i(x_i)/f_i'(x_i), the test compares max_i |f_i(x_i)| with tol *)
+Theorem sysjac_decoupled_pass : forall (dim : nat) (f f' : nat -> R -> R) F Jc, (1 <= dim)%nat ->
+  decoupled_system dim f f' F Jc ->
+  forall (tl : R) (x : list R), length x = dim -> (forall i, (i < dim)%nat -> f' i (nth i x 0) <> 0) ->
+  exists x' mr e, sysjac_step NRl tl F Jc x = Ok (x', R_leb mr tl, e) /\ length x' = dim /\
+    (forall i, (i < dim)%nat -> nth i x' 0 = nth i x 0 - f i (nth i x 0) / f' i (nth i x 0)) /\
+    (forall i, (i < dim)%nat -> Rabs (f i (nth i x 0)) <= mr) /\
+    (exists i, (i < dim)%nat /\ mr = Rabs (f i (nth i x 0))).
+Proof. intros dim f f' F Jc Hd [HF HJ]. exact (diag_pass dim f f' F Jc Hd HF HJ). Qed.
+Check sysjac_decoupled_pass : forall (dim : nat) (f f' : nat -> R -> R) F Jc, (1 <= dim)%nat ->
+  decoupled_system dim f f' F Jc ->
+  forall (tl : R) (x : list R), length x = dim -> (forall i, (i < dim)%nat -> f' i (nth i x 0) <> 0) ->
+  exists x' mr e, sysjac_step NRl tl F Jc x = Ok (x', R_leb mr tl, e) /\ length x' = dim /\
+    (forall i, (i < dim)%nat -> nth i x' 0 = nth i x 0 - f i (nth i x 0) / f' i (nth i x 0)) /\
+    (forall i, (i < dim)%nat -> Rabs (f i (nth i x 0)) <= mr) /\
+    (exists i, (i < dim)%nat /\ mr = Rabs (f i (nth i x 0))).
+Print Assumptions sysjac_decoupled_pass.
+
+(* sup-norm basin |x0_i - r_i| <= rho with (L/m) rho < 1 inside the intervals: no panic *)
+Theorem newton_decoupled_no_panic : forall (dim : nat) (f f' : nat -> R -> R) F Jc, (1 <= dim)%nat ->
+  decoupled_system dim f f' F Jc ->
+  forall (a b r : nat -> R) (m Mb L rho tl : R), smooth_components dim f f' a b r m Mb L ->
+  0 <= rho -> (forall i, (i < dim)%nat -> a i <= r i - rho /\ r i + rho <= b i) -> L / m * rho < 1 ->
+  forall (dl : R) (n : nat) (x0 : list R),
+  (length x0 = dim /\ forall i, (i < dim)%nat -> Rabs (nth i x0 0 - r i) <= rho) ->
+  exists res evs, newton_sysjac NRl (mkCfg tl dl n x0) F Jc = Ok (res, evs).
+Proof.
+  intros dim f f' F Jc Hd [HF HJ] a b r m Mb L rho tl (H1 & H2 & H3 & H4 & H5 & H6 & H7).
+  exact (newton_diag_total_lemma dim f f' F Jc Hd HF HJ a b r m Mb L rho tl H1 H2 H3 H4 H5 H6 H7).
+Qed.
+Check newton_decoupled_no_panic : forall (dim : nat) (f f' : nat -> R -> R) F Jc, (1 <= dim)%nat ->
+  decoupled_system dim f f' F Jc ->
+  forall (a b r : nat -> R) (m Mb L rho tl : R), smooth_components dim f f' a b r m Mb L ->
+  0 <= rho -> (forall i, (i < dim)%nat -> a i <= r i - rho /\ r i + rho <= b i) -> L / m * rho < 1 ->
+  forall (dl : R) (n : nat) (x0 : list R),
+  (length x0 = dim /\ forall i, (i < dim)%nat -> Rabs (nth i x0 0 - r i) <= rho) ->
+  exists res evs, newton_sysjac NRl (mkCfg tl dl n x0) F Jc = Ok (res, evs).
+Print Assumptions newton_decoupled_no_panic.
+
+(* every Ok answer is componentwise within (L/m) (tol/m)^2 of the root *)
+Theorem newton_decoupled_ok_close : forall (dim : nat) (f f' : nat -> R -> R) F Jc, (1 <= dim)%nat ->
+  decoupled_system dim f f' F Jc ->
+  forall (a b r : nat -> R) (m Mb L rho tl : R), smooth_components dim f f' a b r m Mb L ->
+  0 <= rho -> (forall i, (i < dim)%nat -> a i <= r i - rho /\ r i + rho <= b i) -> L / m * rho < 1 ->
+  forall (dl : R) (n : nat) (x0 x : list R) evs,
+  (length x0 = dim /\ forall i, (i < dim)%nat -> Rabs (nth i x0 0 - r i) <= rho) ->
+  newton_sysjac NRl (mkCfg tl dl n x0) F Jc = Ok (NOk x, evs) ->
+  (length x = dim /\ forall i, (i < dim)%nat -> Rabs (nth i x 0 - r i) <= rho) /\
+  forall i, (i < dim)%nat -> Rabs (nth i x 0 - r i) <= L / m * (tl / m * (tl / m)).
+Proof.
+  intros dim f f' F Jc Hd [HF HJ] a b r m Mb L rho tl (H1 & H2 & H3 & H4 & H5 & H6 & H7).
+  exact (newton_diag_ok_close_lemma dim f f' F Jc Hd HF HJ a b r m Mb L rho tl H1 H2 H3 H4 H5 H6 H7).
+Qed.
+Check newton_decoupled_ok_close : forall (dim : nat) (f f' : nat -> R -> R) F Jc, (1 <= dim)%nat ->
+  decoupled_system dim f f' F Jc ->
+  forall (a b r : nat -> R) (m Mb L rho tl : R), smooth_components dim f f' a b r m Mb L ->
+  0 <= rho -> (forall i, (i < dim)%nat -> a i <= r i - rho /\ r i + rho <= b i) -> L / m * rho < 1 ->
+  forall (dl : R) (n : nat) (x0 x : list R) evs,
+  (length x0 = dim /\ forall i, (i < dim)%nat -> Rabs (nth i x0 0 - r i) <= rho) ->
+  newton_sysjac NRl (mkCfg tl dl n x0) F Jc = Ok (NOk x, evs) ->
+  (length x = dim /\ forall i, (i < dim)%nat -> Rabs (nth i x 0 - r i) <= rho) /\
+  forall i, (i < dim)%nat -> Rabs (nth i x 0 - r i) <= L / m * (tl / m * (tl / m)).
+Print Assumptions newton_decoupled_ok_close.
+
+(* and the answer IS Ok as soon as Mb q^N rho <= tol with q = (L/m) rho and N < max_iter *)
+Theorem newton_decoupled_ok : forall (dim : nat) (f f' : nat -> R -> R) F Jc, (1 <= dim)%nat ->
+  decoupled_system dim f f' F Jc ->
+  forall (a b r : nat -> R) (m Mb L rho tl : R), smooth_components dim f f' a b r m Mb L ->
+  0 <= rho -> (forall i, (i < dim)%nat -> a i <= r i - rho /\ r i + rho <= b i) -> L / m * rho < 1 ->
+  forall (dl : R) (N n : nat) (x0 : list R),
+  (length x0 = dim /\ forall i, (i < dim)%nat -> Rabs (nth i x0 0 - r i) <= rho) ->
+  Mb * ((L / m * rho) ^ N * rho) <= tl -> (N < n)%nat ->
+  exists x evs, newton_sysjac NRl (mkCfg tl dl n x0) F Jc = Ok (NOk x, evs) /\
+    (length x = dim /\ forall i, (i < dim)%nat -> Rabs (nth i x 0 - r i) <= rho) /\
+    forall i, (i < dim)%nat -> Rabs (nth i x 0 - r i) <= L / m * (tl / m * (tl / m)).
+Proof.
+  intros dim f f' F Jc Hd [HF HJ] a b r m Mb L rho tl (H1 & H2 & H3 & H4 & H5 & H6 & H7).
+  exact (newton_diag_ok_lemma dim f f' F Jc Hd HF HJ a b r m Mb L rho tl H1 H2 H3 H4 H5 H6 H7).
+Qed.
+Check newton_decoupled_ok : forall (dim : nat) (f f' : nat -> R -> R) F Jc, (1 <= dim)%nat ->
+  decoupled_system dim f f' F Jc ->
+  forall (a b r : nat -> R) (m Mb L rho tl : R), smooth_components dim f f' a b r m Mb L ->
+  0 <= rho -> (forall i, (i < dim)%nat -> a i <= r i - rho /\ r i + rho <= b i) -> L / m * rho < 1 ->
+  forall (dl : R) (N n : nat) (x0 : list R),
+  (length x0 = dim /\ forall i, (i < dim)%nat -> Rabs (nth i x0 0 - r i) <= rho) ->
+  Mb * ((L / m * rho) ^ N * rho) <= tl -> (N < n)%nat ->
+  exists x evs, newton_sysjac NRl (mkCfg tl dl n x0) F Jc = Ok (NOk x, evs) /\
+    (length x = dim /\ forall i, (i < dim)%nat -> Rabs (nth i x 0 - r i) <= rho) /\
+    forall i, (i < dim)%nat -> Rabs (nth i x 0 - r i) <= L / m * (tl / m * (tl / m)).
+Print Assumptions newton_decoupled_ok.
+
+(* (x, y) |-> (x^3 - 2, y^3 - 2) with its diagonal Jacobian, from (5/4, 13/10), rho = 1/10 (q = 2/5), tol = 2, N = 0 *)
+Example newton_decoupled_nonvacuous :
+  (1 <= 2)%nat /\ decoupled_system 2 (fun _ => cube2) (fun _ => cube2') F2w J2w /\
+  smooth_components 2 (fun _ => cube2) (fun _ => cube2') (fun _ => 1) (fun _ => 2) (fun _ => rc) 3 12 12 /\
+  0 <= 1 / 10 /\ (forall i, (i < 2)%nat -> 1 <= rc - 1 / 10 /\ rc + 1 / 10 <= 2) /\ 12 / 3 * (1 / 10) < 1 /\
+  (length [5 / 4; 13 / 10] = 2%nat /\ forall i, (i < 2)%nat -> Rabs (nth i [5 / 4; 13 / 10] 0 - rc) <= 1 / 10) /\
+  12 * ((12 / 3 * (1 / 10)) ^ 0 * (1 / 10)) <= 2 /\ (0 < 1)%nat.
+Proof.
+  pose proof rc_bounds as Hrc.
+  split; [lia|]. split; [split; [exact F2w_spec|exact J2w_spec]|].
+  split.
+  { split; [intros i _ c _; apply cube2_der|]. split; [lra|]. split; [lra|].
+    split; [intros i _; exact cube2_lo|]. split; [intros i _; exact cube2_hi|].
+    split; [intros i _; exact cube2_lip|]. intros i _. exact rc_root. }
+  split; [lra|]. split; [intros i _; lra|]. split; [lra|]. split; [exact ball2w|].
+  split; [cbn [pow]; lra|auto].
+Qed.
+Local Close Scope R_scope.
+
+(* the same with the FINITE-DIFFERENCE Jacobian (Newton<Vec64>::solve): the Jacobian of a decoupled map is exactly
+   diagonal over R (Props/C18.v jacobian_decoupled_diagonal), its diagonal entries are values of f_i' within |delta|
+   of x_i, so q = (L/m)(rho + |delta|) and the final distance is (L/m)(tol/m)(tol/m + |delta|) *)
+Local Open Scope R_scope.
+Definition decoupled_map (dim : nat) (f : nat -> R -> R) (F : list R -> res (list R)) : Prop :=
+  forall x, length x = dim ->
+    exists v, F x = Ok v /\ length v = dim /\ forall i, (i < dim)%nat -> nth i v 0 = f i (nth i x 0).
+
+Theorem newton_fd_decoupled_no_panic : forall (dim : nat) (f f' : nat -> R -> R) F, (1 <= dim)%nat ->
+  decoupled_map dim f F ->
+  forall (a b r : nat -> R) (m Mb L rho tl dl : R), smooth_components dim f f' a b r m Mb L ->
+  0 <= rho -> dl <> 0 ->
+  (forall i, (i < dim)%nat -> a i <= r i - rho - Rabs dl /\ r i + rho + Rabs dl <= b i) ->
+  L / m * (rho + Rabs dl) < 1 ->
+  forall (n : nat) (x0 : list R),
+  (length x0 = dim /\ forall i, (i < dim)%nat -> Rabs (nth i x0 0 - r i) <= rho) ->
+  exists res evs, newton_sys NRl (mkCfg tl dl n x0) F = Ok (res, evs).
+Proof.
+  intros dim f f' F Hd HF a b r m Mb L rho tl dl (H1 & H2 & H3 & H4 & H5 & H6 & H7).
+  exact (Newton2DiagFD.newton_fd_decoupled_total_lemma dim f f' F Hd HF a b r m Mb L rho tl dl H1 H2 H3 H4 H5 H6 H7).
+Qed.
+Check newton_fd_decoupled_no_panic : forall (dim : nat) (f f' : nat -> R -> R) F, (1 <= dim)%nat ->
+  decoupled_map dim f F ->
+  forall (a b r : nat -> R) (m Mb L rho tl dl : R), smooth_components dim f f' a b r m Mb L ->
+  0 <= rho -> dl <> 0 ->
+  (forall i, (i < dim)%nat -> a i <= r i - rho - Rabs dl /\ r i + rho + Rabs dl <= b i) ->
+  L / m * (rho + Rabs dl) < 1 ->
+  forall (n : nat) (x0 : list R),
+  (length x0 = dim /\ forall i, (i < dim)%nat -> Rabs (nth i x0 0 - r i) <= rho) ->
+  exists res evs, newton_sys NRl (mkCfg tl dl n x0) F = Ok (res, evs).
+Print Assumptions newton_fd_decoupled_no_panic.
+
+Theorem newton_fd_decoupled_ok_close : forall (dim : nat) (f f' : nat -> R -> R) F, (1 <= dim)%nat ->
+  decoupled_map dim f F ->
+  forall (a b r : nat -> R) (m Mb L rho tl dl : R), smooth_components dim f f' a b r m Mb L ->
+  0 <= rho -> dl <> 0 ->
+  (forall i, (i < dim)%nat -> a i <= r i - rho - Rabs dl /\ r i + rho + Rabs dl <= b i) ->
+  L / m * (rho + Rabs dl) < 1 ->
+  forall (n : nat) (x0 x : list R) evs,
+  (length x0 = dim /\ forall i, (i < dim)%nat -> Rabs (nth i x0 0 - r i) <= rho) ->
+  newton_sys NRl (mkCfg tl dl n x0) F = Ok (NOk x, evs) ->
+  (length x = dim /\ forall i, (i < dim)%nat -> Rabs (nth i x 0 - r i) <= rho) /\
+  forall i, (i < dim)%nat -> Rabs (nth i x 0 - r i) <= L / m * (tl / m * (tl / m + Rabs dl)).
+Proof.
+  intros dim f f' F Hd HF a b r m Mb L rho tl dl (H1 & H2 & H3 & H4 & H5 & H6 & H7).
+  exact (Newton2DiagFD.newton_fd_decoupled_ok_close_lemma dim f f' F Hd HF a b r m Mb L rho tl dl H1 H2 H3 H4 H5 H6 H7).
+Qed.
+Check newton_fd_decoupled_ok_close : forall (dim : nat) (f f' : nat -> R -> R) F, (1 <= dim)%nat ->
+  decoupled_map dim f F ->
+  forall (a b r : nat -> R) (m Mb L rho tl dl : R), smooth_components dim f f' a b r m Mb L ->
+  0 <= rho -> dl <> 0 ->
+  (forall i, (i < dim)%nat -> a i <= r i - rho - Rabs dl /\ r i + rho + Rabs dl <= b i) ->
+  L / m * (rho + Rabs dl) < 1 ->
+  forall (n : nat) (x0 x : list R) evs,
+  (length x0 = dim /\ forall i, (i < dim)%nat -> Rabs (nth i x0 0 - r i) <= rho) ->
+  newton_sys NRl (mkCfg tl dl n x0) F = Ok (NOk x, evs) ->
+  (length x = dim /\ forall i, (i < dim)%nat -> Rabs (nth i x 0 - r i) <= rho) /\
+  forall i, (i < dim)%nat -> Rabs (nth i x 0 - r i) <= L / m * (tl / m * (tl / m + Rabs dl)).
+Print Assumptions newton_fd_decoupled_ok_close.
+
+Theorem newton_fd_decoupled_ok : forall (dim : nat) (f f' : nat -> R -> R) F, (1 <= dim)%nat ->
+  decoupled_map dim f F ->
+  forall (a b r : nat -> R) (m Mb L rho tl dl : R), smooth_components dim f f' a b r m Mb L ->
+  0 <= rho -> dl <> 0 ->
+  (forall i, (i < dim)%nat -> a i <= r i - rho - Rabs dl /\ r i + rho + Rabs dl <= b i) ->
+  L / m * (rho + Rabs dl) < 1 ->
+  forall (N n : nat) (x0 : list R),
+  (length x0 = dim /\ forall i, (i < dim)%nat -> Rabs (nth i x0 0 - r i) <= rho) ->
+  Mb * ((L / m * (rho + Rabs dl)) ^ N * rho) <= tl -> (N < n)%nat ->
+  exists x evs, newton_sys NRl (mkCfg tl dl n x0) F = Ok (NOk x, evs) /\
+    (length x = dim /\ forall i, (i < dim)%nat -> Rabs (nth i x 0 - r i) <= rho) /\
+    forall i, (i < dim)%nat -> Rabs (nth i x 0 - r i) <= L / m * (tl / m * (tl / m + Rabs dl)).
+Proof.
+  intros dim f f' F Hd HF a b r m Mb L rho tl dl (H1 & H2 & H3 & H4 & H5 & H6 & H7).
+  exact (Newton2DiagFD.newton_fd_decoupled_ok_lemma dim f f' F Hd HF a b r m Mb L rho tl dl H1 H2 H3 H4 H5 H6 H7).
+Qed.
+Check newton_fd_decoupled_ok : forall (dim : nat) (f f' : nat -> R -> R) F, (1 <= dim)%nat ->
+  decoupled_map dim f F ->
+  forall (a b r : nat -> R) (m Mb L rho tl dl : R), smooth_components dim f f' a b r m Mb L ->
+  0 <= rho -> dl <> 0 ->
+  (forall i, (i < dim)%nat -> a i <= r i - rho - Rabs dl /\ r i + rho + Rabs dl <= b i) ->
+  L / m * (rho + Rabs dl) < 1 ->
+  forall (N n : nat) (x0 : list R),
+  (length x0 = dim /\ forall i, (i < dim)%nat -> Rabs (nth i x0 0 - r i) <= rho) ->
+  Mb * ((L / m * (rho + Rabs dl)) ^ N * rho) <= tl -> (N < n)%nat ->
+  exists x evs, newton_sys NRl (mkCfg tl dl n x0) F = Ok (NOk x, evs) /\
+    (length x = dim /\ forall i, (i < dim)%nat -> Rabs (nth i x 0 - r i) <= rho) /\
+    forall i, (i < dim)%nat -> Rabs (nth i x 0 - r i) <= L / m * (tl / m * (tl / m + Rabs dl)).
+Print Assumptions newton_fd_decoupled_ok.
+
+(* the system of newton_decoupled_nonvacuous with delta = 1/10: q = 4/5 *)
+Example newton_fd_decoupled_nonvacuous :
+  decoupled_map 2 (fun _ => cube2) F2w /\ 1 / 10 <> 0 /\
+  (forall i, (i < 2)%nat -> 1 <= rc - 1 / 10 - Rabs (1 / 10) /\ rc + 1 / 10 + Rabs (1 / 10) <= 2) /\
+  12 / 3 * (1 / 10 + Rabs (1 / 10)) < 1 /\
+  12 * ((12 / 3 * (1 / 10 + Rabs (1 / 10))) ^ 0 * (1 / 10)) <= 2.
+Proof.
+  pose proof rc_bounds as Hrc. rewrite (Rabs_right (1 / 10)) by lra.
+  split; [exact F2w_spec|]. split; [lra|]. split; [intros i _; lra|]. split; [lra|cbn [pow]; lra].
+Qed.
+Local Close Scope R_scope.
 (* ---- tie of the model to the source of this run (package r2c2): gen/SrcNewton.v / gen/SrcNewtonC.v are regenerated from
    src/newton.rs and src/matrix/functions.rs by driver/rust2coq.py on every check run; Proofs/SrcEqNewton.v and
    Proofs/SrcEqNewtonC.v prove ERASURE -- each of the six regenerated solve methods and of the two finite-difference Jacobians
